@@ -263,6 +263,48 @@ def generate(repo):
                    'return segment_vtov, all_centers, windows, local_coords, local_masks, segment_ids, mask') else None
     g.fact('hexMaskIsUnionOfLocalMasks', 'prysm/segmented.py:_composite_hexagonal_aperture', aperture_structure)
 
+    def claim_step():
+        """the tail of the per-segment loop, per sample: what is stored as the segment's local mask and what the aperture mask
+        becomes, as Boolean functions of (aperture mask so far, polygon mask of this segment)"""
+        fn = get_def(sg, '_composite_hexagonal_aperture')
+        ring_loop = [s_ for s_ in fn.body if isinstance(s_, ast.For)][0]
+        seg_loop = [s_ for s_ in ring_loop.body if isinstance(s_, ast.For)][0]
+        body = list(seg_loop.body)
+        k0 = [i for i, s_ in enumerate(body) if isinstance(s_, ast.Assign) and ast.unparse(s_.targets[0]) == 'local_mask'
+              and 'regular_polygon' in ast.unparse(s_.value)][0]
+        st8 = {'local_mask': 'm', 'mask[local_window]': 'prev'}
+        stored = None
+
+        def b(e):
+            key = ast.unparse(e)
+            if key in st8:
+                return st8[key]
+            if isinstance(e, ast.UnaryOp) and isinstance(e.op, ast.Invert):
+                return f'(!{b(e.operand)})'
+            if isinstance(e, ast.BinOp) and isinstance(e.op, (ast.BitAnd, ast.BitOr, ast.BitXor)):
+                sym = {ast.BitAnd: '&&', ast.BitOr: '||', ast.BitXor: '!='}[type(e.op)]
+                return f'({b(e.left)} {sym} {b(e.right)})'
+            if isinstance(e, ast.Call) and ast.unparse(e.func) in ('np.logical_not',) and len(e.args) == 1:
+                return f'(!{b(e.args[0])})'
+            raise Untranslatable(f'mask expression {key}')
+        for st in body[k0 + 1:]:
+            txt = ast.unparse(st)
+            if isinstance(st, ast.AugAssign) and ast.unparse(st.target) in st8 and isinstance(st.op, (ast.BitAnd, ast.BitOr)):
+                sym = '&&' if isinstance(st.op, ast.BitAnd) else '||'
+                st8[ast.unparse(st.target)] = f'({st8[ast.unparse(st.target)]} {sym} {b(st.value)})'
+            elif isinstance(st, ast.Assign) and ast.unparse(st.targets[0]) in st8:
+                st8[ast.unparse(st.targets[0])] = b(st.value)
+            elif isinstance(st, ast.Expr) and txt.startswith('local_masks.append('):
+                stored = b(st.value.args[0])
+            elif 'local_mask' in txt.replace('local_masks', '') or 'mask[' in txt:
+                raise Untranslatable(f'claim step: {txt}')
+        if stored is None:
+            raise Untranslatable('local mask never stored')
+        return f"def claimStep (prev m : Bool) : Bool × Bool := ({stored}, {st8['mask[local_window]']})"
+    g.item('hex_claim', 'prysm/segmented.py:_composite_hexagonal_aperture (local_mask / mask update)',
+           lambda: get_def(sg, '_composite_hexagonal_aperture'), claim_step,
+           f'def claimStep (prev m : Bool) : Bool × Bool := {M}.claimStep prev m')
+
     def compose_structure():
         ok = True
         for cls in ('CompositeHexagonalAperture', 'CompositeKeystoneAperture'):
@@ -340,7 +382,7 @@ def generate(repo):
                    'outer_radius = center_radius', 'arc_per_seg = 360 / nsegments',
                    'segment_angles = np.arange(nsegments, dtype=float) * arc_per_seg + rotation',
                    'inner_include = circle(inner_radius, rr)', 'outer_exclude = circle(outer_radius, rr)',
-                   'mask = arc & ang_mask', 'primary_mask[window] |= mask', 'hi = angle + arc_rad', 'lo = angle',
+                   'mask = arc & ang_mask', 'primary_mask[window] |= mask', 'lo = angle',
                    'primary_mask &= ~all_spiders')
         loop = [s_ for s_ in fn.body if isinstance(s_, ast.For)][0]
         rad = [s_ for s_ in loop.body if isinstance(s_, ast.Assign) and ast.unparse(s_.targets[0]) in ('inner_radius', 'outer_radius')]
@@ -358,14 +400,109 @@ def generate(repo):
         ang = [s_ for s_ in inner_loop.body if isinstance(s_, ast.Assign) and ast.unparse(s_.targets[0]) == 'ang_mask'][0].value
         trp = VTr({'tt': ('t', 's'), 'lo': ('lo', 's'), 'hi': ('hi', 's')})
         angp = prop(trp, ang)
+        # the wrap-around branches that follow `ang_mask = ...`:  if c1: ang_mask |= X  elif c2: <assignments>; ang_mask = Y
+        # (constants hoisted to the top of the function -- two_pi = 2*np.pi -- are inlined first)
+        consts = {}
+        for st in fn.body:
+            if isinstance(st, ast.Assign) and len(st.targets) == 1 and isinstance(st.targets[0], ast.Name):
+                v = subst(st.value, consts)
+                if all(isinstance(n_, (ast.Constant, ast.BinOp, ast.UnaryOp, ast.operator, ast.unaryop, ast.Load, ast.Attribute, ast.Name))
+                       and (not isinstance(n_, ast.Name) or n_.id in ('np', 'math')) and (not isinstance(n_, ast.Attribute) or n_.attr == 'pi')
+                       for n_ in ast.walk(v)):
+                    consts[st.targets[0].id] = v
+        body = [subst(s_, consts) for s_ in inner_loop.body]
+        k_ang = [i for i, s_ in enumerate(body) if isinstance(s_, ast.Assign) and ast.unparse(s_.targets[0]) == 'ang_mask'][0]
+        k_msk = [i for i, s_ in enumerate(body) if isinstance(s_, ast.Assign) and ast.unparse(s_.targets[0]) == 'mask'][0]
+        between = body[k_ang + 1:k_msk]
+        trw = VTr({'tt': ('t', 's'), 'lo': ('lo', 's'), 'hi': ('hi', 's'), 'np.pi': ('pi', 's'), 'math.pi': ('pi', 's')})
+
+        def branch(stmts):
+            """ang_mask after a straight-line branch body, as a Prop in (lo, hi, t, pi)"""
+            names, cur = {}, None
+            for st in stmts:
+                if isinstance(st, ast.AugAssign) and ast.unparse(st.target) == 'ang_mask' and isinstance(st.op, (ast.BitOr, ast.BitAnd)):
+                    sym = '∨' if isinstance(st.op, ast.BitOr) else '∧'
+                    cur = f'({cur or angp} {sym} {prop(trw, subst(st.value, names))})'
+                elif isinstance(st, ast.Assign) and ast.unparse(st.targets[0]) == 'ang_mask':
+                    cur = prop(trw, subst(st.value, names))
+                elif isinstance(st, ast.Assign) and isinstance(st.targets[0], ast.Name):
+                    names[st.targets[0].id] = subst(st.value, names)
+                elif isinstance(st, ast.Assign) and ast.unparse(st.targets[0]) in ('lo, hi', '(lo, hi)'):
+                    pass      # rebinding AFTER the mask is formed: only feeds the edge coordinates stored for the OPD bases
+                else:
+                    raise Untranslatable(f'keystone wrap branch: {ast.unparse(st)}')
+                if cur is None and isinstance(st, ast.Assign) and ast.unparse(st.targets[0]) in ('lo, hi', '(lo, hi)'):
+                    raise Untranslatable('lo, hi rebound before the angular mask of the branch')
+            return cur or angp
+
+        def chain(stmts):
+            if not stmts:
+                return angp
+            if len(stmts) != 1 or not isinstance(stmts[0], ast.If):
+                raise Untranslatable('keystone wrap: expected one if/elif chain between ang_mask and mask')
+            node = stmts[0]
+            c = prop(trw, node.test)
+            return f'(({c} ∧ {branch(node.body)}) ∨ (¬ {c} ∧ {chain(node.orelse)}))'
+        wrap = chain(between)
+        # where the arc starts: `lo = angle`, whole turns taken off / added by while loops, then `hi = lo + arc_rad`
+        pre = body[:k_ang]
+        down = up = None
+        hi_expr, hi_touched, lo_seen = None, False, False
+        trl = VTr({'lo': ('lo', 's'), 'np.pi': ('pi', 's'), 'math.pi': ('pi', 's'), 'angle': ('angle', 's'), 'arc_rad': ('arc', 's')})
+        for st in pre:
+            txt = ast.unparse(st)
+            if isinstance(st, ast.Assign) and txt == 'lo = angle':
+                lo_seen = True
+            elif isinstance(st, ast.While) and lo_seen and 'lo' in {n_.id for n_ in ast.walk(st.test) if isinstance(n_, ast.Name)} \
+                    and 'hi' not in {n_.id for n_ in ast.walk(st) if isinstance(n_, ast.Name)}:
+                if len(st.body) != 1 or not isinstance(st.body[0], (ast.Assign, ast.AugAssign)):
+                    raise Untranslatable(f'keystone start loop: {txt}')
+                b0 = st.body[0]
+                val = b0.value if isinstance(b0, ast.Assign) else ast.BinOp(left=ast.Name(id='lo', ctx=ast.Load()), op=b0.op, right=b0.value)
+                tgt = ast.unparse(b0.targets[0] if isinstance(b0, ast.Assign) else b0.target)
+                if tgt != 'lo':
+                    raise Untranslatable(f'keystone start loop: {txt}')
+                if hi_expr is not None:
+                    hi_touched = True     # lo moves after hi was formed
+                    continue
+                pair = (prop(trl, st.test), trl.expr(ast.fix_missing_locations(val))[0])
+                if isinstance(val, ast.BinOp) and isinstance(val.op, ast.Sub) and down is None:
+                    down = pair
+                elif isinstance(val, ast.BinOp) and isinstance(val.op, ast.Add) and up is None:
+                    up = pair
+                else:
+                    raise Untranslatable(f'keystone start loop: {txt}')
+            elif isinstance(st, ast.Assign) and ast.unparse(st.targets[0]) == 'hi' and hi_expr is None:
+                hi_expr = trl.expr(st.value)[0]
+            elif lo_seen and {n_.id for n_ in ast.walk(st) if isinstance(n_, ast.Name) and isinstance(n_.ctx, ast.Store)} & {'lo', 'hi'}:
+                hi_touched = True        # a loop, a swap or a reassignment that moves hi away from lo + arc
+        if hi_expr is None or not lo_seen:
+            raise Untranslatable('keystone: lo / hi assignments not found')
+        down = down or ('False', 'lo')
+        up = up or ('False', 'lo')
+        KV = '{K : Type} [Add K] [Sub K] [Mul K] [Div K] [Neg K] [OfNat K 0] [OfNat K 1] [OfNat K 2]'
+        start = (f'def keyLoDownCond {PVARS} (pi lo : K) : Prop := {down[0]}\n'
+                 f'def keyLoDownStep {KV} (pi lo : K) : K := {down[1]}\n'
+                 f'def keyLoUpCond {PVARS} (pi lo : K) : Prop := {up[0]}\n'
+                 f'def keyLoUpStep {KV} (pi lo : K) : K := {up[1]}\n'
+                 f'def keyHi {KV} (angle lo arc : K) : K := {hi_expr}\n'
+                 f'def keyHiUntouched : Bool := {"false" if hi_touched else "true"}')
         return (f'def keyInner {{K : Type}} [Add K] (outerPrev gap : K) : K := {inner}\n'
                 f'def keyOuter {{K : Type}} [Add K] (inner width : K) : K := {outer}\n'
-                f'def keySector {PVARS} (rin rout lo hi r t : K) : Prop := ({xor} ∧ {angp})')
+                f'def keySector {PVARS} (rin rout lo hi r t : K) : Prop := ({xor} ∧ {angp})\n'
+                f'def keyAng {PVARS} (pi lo hi t : K) : Prop := {wrap}\n' + start)
     g.item('keystone', 'prysm/segmented.py:_composite_keystone_aperture',
            lambda: get_def(sg, '_composite_keystone_aperture'), keystone,
            (f'def keyInner {{K : Type}} [Add K] (outerPrev gap : K) : K := {M}.keyInner outerPrev gap\n'
             f'def keyOuter {{K : Type}} [Add K] (inner width : K) : K := {M}.keyOuter inner width\n'
-            f'def keySector {PVARS} (rin rout lo hi r t : K) : Prop := {M}.keySector rin rout lo hi r t'))
+            f'def keySector {PVARS} (rin rout lo hi r t : K) : Prop := {M}.keySector rin rout lo hi r t\n'
+            f'def keyAng {PVARS} (pi lo hi t : K) : Prop := {M}.keyAng pi lo hi t\n'
+            f'def keyLoDownCond {PVARS} (pi lo : K) : Prop := lo > pi\n'
+            'def keyLoDownStep {K : Type} [Add K] [Sub K] [Mul K] [Div K] [Neg K] [OfNat K 0] [OfNat K 1] [OfNat K 2] (pi lo : K) : K := lo - 2 * pi\n'
+            f'def keyLoUpCond {PVARS} (pi lo : K) : Prop := lo < -pi\n'
+            'def keyLoUpStep {K : Type} [Add K] [Sub K] [Mul K] [Div K] [Neg K] [OfNat K 0] [OfNat K 1] [OfNat K 2] (pi lo : K) : K := lo + 2 * pi\n'
+            'def keyHi {K : Type} [Add K] [Sub K] [Mul K] [Div K] [Neg K] [OfNat K 0] [OfNat K 1] [OfNat K 2] (angle lo arc : K) : K := lo + arc\n'
+            'def keyHiUntouched : Bool := true'))
 
     def rect_branches():
         fn = get_def(ge, 'rectangle')
